@@ -44,6 +44,7 @@ def plan(tier, seed):
 
 def floors(tier):
     f = {"checked/%s" % e: 10 for e in ENTRY}
+    f.update({"returned/%s" % e: 8 for e in ENTRY})
     f.update({"arrays_traced": 5000, "dtype/float32": 600, "dtype/float64": 300, "dtype/complex128": 50})
     return f
 
@@ -461,12 +462,19 @@ def run_case(case, ctx):
         dt = "float32"
     ctx.count("checked/%s" % entry)
     ctx.count("dtype/%s" % dt)
+    f, real_ok = build(entry, rs, dt)
     try:
-        f, real_ok = build(entry, rs, dt)
         out = f()
     except np.linalg.LinAlgError:
         ctx.skip("singular problem")
         return
+    except Exception as e:  # noqa
+        # a call that raises returns no array: not a statement about dtypes (whether it should raise is other properties' business;
+        # thorough-tier witness: leverage_score_dist of an all-zero least-squares solution inside tensor_ring_als_sampled).
+        # The floor on returned/<entry> keeps an entry point that always raises from passing silently.
+        ctx.skip("%s raised %s: no array to judge" % (entry, type(e).__name__))
+        return
+    ctx.count("returned/%s" % entry)
     found = []
     trace(out, found)
     want = np.dtype(dt)
